@@ -162,7 +162,11 @@ def r4_lock_order(ctx):
     for name in sorted(lockers):
         fn = facts.fns[name]
         ctx.touch(name)
-        eng = Engine(facts, inline_filter=lambda n, c: False, max_paths=20000)
+        # small lock-taking helpers (`increment(&counter)`) are expanded in place: their acquisitions, with the lock they are handed,
+        # become part of the caller's acquisition sequence; the search routines themselves are never expanded
+        small = {n_ for n_ in lockers if n_ not in (MINIMAX, SEARCH) and not facts.fns[n_].cfg.has_loops() and facts.fns[n_].kind != 'Closure'
+                 and len(facts.fns[n_].blocks) <= 40}
+        eng = Engine(facts, inline_filter=lambda n, c, small=small, name=name: n in small and n != name, max_paths=20000)
         try:
             outs = eng.run(name)
         except PathLimit:
